@@ -896,3 +896,53 @@ Proof.
   - intros _. rewrite <- gen_spec by assumption. apply Nat.eqb_sym.
   - intros _. now rewrite all_heads_pos_ok.
 Qed.
+
+(** * statements as pinned in Props/C18.v *)
+Lemma generation_thm : forall (g : graph), wf g ->
+  (forall i, gen g i = list_max (map (fun p => S (gen g p)) (parents g i))) /\
+  (forall i p, In p (parents g i) -> gen g p < gen g i) /\
+  (forall a d, anc g a d -> a <> d -> gen g a < gen g d) /\
+  (forall ps, gens (g ++ [ps]) = gens g ++ [gen_of (gens g) ps]).
+Proof.
+  intros g W. split; [exact (gen_spec g W)|]. split; [intros i p; now apply gen_parent_lt|].
+  split; [intros a d H N; apply gen_sanc_lt; [assumption|now split]|]. exact (gens_snoc g).
+Qed.
+
+Lemma is_ancestor_thm : forall (g : graph) (a d : nat), wf g -> d < length g ->
+  exists b, is_ancestor_pos g a d = Some b /\ (b = true <-> anc g a d).
+Proof.
+  intros g a d W L. exists (ancb g a d). split; [now apply is_ancestor_pos_ok|].
+  now apply ancb_spec.
+Qed.
+
+Lemma heads_pos_thm : forall (g : graph) (cands : list nat), wf g -> sdesc cands ->
+  heads_pos g cands = Some (heads_of g cands) /\
+  forall x, In x (heads_of g cands) <-> maximal_in g (fun y => In y cands) x.
+Proof.
+  intros g cands W SD. split; [now apply heads_pos_ok|]. intros x. now apply heads_of_spec.
+Qed.
+
+Lemma heads_thm : forall (g : graph) (cands : list nat), wf g ->
+  exists r, heads g cands = Some r /\ sdesc r /\
+    forall x, In x r <-> maximal_in g (fun y => In y cands) x.
+Proof.
+  intros g cands W. exists (spec_heads g cands). split; [now apply heads_ok|].
+  split; [apply spec_heads_sdesc|]. intros x. now apply spec_heads_in.
+Qed.
+
+Lemma common_ancestors_thm : forall (g : graph) (s1 s2 : list nat), wf g ->
+  (forall s, In s s1 -> s < length g) ->
+  exists r, common_ancestors_pos g s1 s2 = Some r /\ sdesc r /\
+    forall x, In x r <-> maximal_in g (common_of g s1 s2) x.
+Proof.
+  intros g s1 s2 W R. exists (spec_common g s1 s2).
+  split; [now apply common_ancestors_pos_ok|]. split; [apply spec_common_sdesc|].
+  intros x. now apply spec_common_in.
+Qed.
+
+Lemma all_heads_thm : forall (g : graph), wf g ->
+  all_heads_pos g = rev (heads_of g (all_pos_desc g)) /\
+  forall x, In x (all_heads_pos g) <-> x < length g /\ forall y, ~ In x (parents g y).
+Proof.
+  intros g W. split; [now apply all_heads_pos_ok|]. intros x. now apply all_heads_in.
+Qed.
